@@ -3,28 +3,32 @@ from . import modecommon, C03
 from ..facts import Module
 
 LEVEL = "other"
-RM = {"MODE": "R-C08-PASS", "PREFIX": "R-C08-PASS1", "LEN": "R-C08-LEN", "ADVANCE": "R-C08-LOCKSTEP", "TAGPOS": "R-C08-END", "INPLACE": "R-C08-INPLACE", "OUTRANGE": "R-C08-COVER", "NONCE2": "R-C08-NONCE"}
+RM = {"RT": "R-C08-PASS", "LEN": "R-C08-LEN", "ADVANCE": "R-C08-LOCKSTEP", "TAGPOS": "R-C08-END", "INPLACE": "R-C08-INPLACE", "OUTRANGE": "R-C08-COVER"}
+PAIR = {"MODE": "R-C08-PASS", "PREFIX": "R-C08-PASS1", "NONCE2": "R-C08-NONCE"}
 
 
 def run(ck, build):
     ck.rule("R-C08-LEN", "*clen = mlen + 8 / *mlen = clen - 8 is the only length store")
-    ck.rule("R-C08-PASS1", "encrypt: setup(npub,0x90), absorb(ad,0x30,5), absorb(m,mlen,0x50,keyed rounds), tag -> c + mlen; decrypt recomputes exactly this over (npub, ad, recovered plaintext m, clen-8) after the keystream pass")
-    ck.rule("R-C08-NONCE", "second-pass nonce = npub[0..3] || tag (encrypt: the 8 tag bytes just generated; decrypt: the 8 bytes at c + clen - 8, copied before any plaintext store), setup domain 0xB0")
-    ck.rule("R-C08-PASS", "second pass per path class: frame 0xD0, keyed rounds, output = input xor word 2 restricted to r bytes, nothing absorbed (state = permutation output), bit for bit against the reference; "
-            "encrypt/decrypt duality of the reference checked symbolically; decrypt returns check_tag's verdict on the regenerated tag")
+    ck.rule("R-C08-PASS1", "RELATIONAL (encrypt vs decrypt; conformance with the documented construction is C09): both unpack the key to the same words; decrypt's authentication pass after the keystream pass "
+            "repeats encrypt's first pass call for call (setup, absorb AD, absorb plaintext, generate tag: same callees, domains, rounds, chained state) over (npub, ad, recovered plaintext m, clen - 8)")
+    ck.rule("R-C08-NONCE", "RELATIONAL: decrypt's second-pass setup equals encrypt's (same callee, domain, key words, nonce composition) with the 8 bytes stored at c + clen - 8 in place of the tag encrypt "
+            "generated and stored at c + mlen")
+    ck.rule("R-C08-PASS", "RELATIONAL, per path class of the keystream pass: same permutation call(s) in both directions (callee, rounds, key, input state); decrypt applied to encrypt's output-byte terms gives "
+            "back the plaintext bytes bit for bit; the state after a whole block agrees; decrypt returns check_tag's verdict on the regenerated tag")
     ck.rule("R-C08-LOCKSTEP", "cursors and remaining length advance in lock-step; residues 0..3 each handled once")
     ck.rule("R-C08-COVER", "exactly the bytes [0,r) / [0,4) at the cursors are read and written; refusal writes nothing")
     ck.rule("R-C08-END", "received tag read at cursor + r = c + clen - 8 (8 bytes)")
     ck.rule("R-C08-INPLACE", "load-before-store per byte in the keystream pass; the tag bytes are copied into the local nonce before the first plaintext store")
     ck.rule("R-C08-GUARD", "inputs shorter than 8 bytes are refused before any access; every other path returns check_tag's verdict (C03's rules on the three SIV decrypt functions)")
     ck.not_decided += ["values; that the computed tag depends on every input bit (cipher property)", "alignment independence is C06's"]
-    modecommon.duality_selfcheck(ck, "R-C08-PASS", "siv")
-    mod, fns, n = modecommon.run_mode(ck, build, ("siv",), RM, helper_fns=False, floor_obl=150)
+    mod, fns, n = modecommon.run_mode(ck, build, ("siv",), RM, helper_fns=False, floor_obl=100)
+    npair = modecommon.run_pairs(ck, mod, ("siv",), PAIR)
+    ck.floor("R-C08-PASS", "relational obligations over the three encrypt/decrypt pairs", npair, 60)
     sub = _Ren(ck)
     for f in C03.dec_fns(mod, kinds=("siv",)):
         C03.guard_and_must(sub, f, "H/N0")
         C03.args_rule(sub, mod, f, "H/N0")
-    modecommon.fixture_control(ck, build, ("siv",), RM, "c08_bad.c", ["R-C08-PASS", "R-C08-NONCE"])
+    modecommon.fixture_control(ck, build, ("siv",), RM, "c08_bad.c", ["R-C08-NONCE"], pair_rulemap=PAIR)
     ck.coverage_extra.update({"functions": [f.name for f in fns], "exhaustive": True, "exhaustive_over": "every path class of the six SIV functions"})
 
 
